@@ -48,10 +48,60 @@ func c10PersistRun(path []int, ops []c10Op) (key, detail string) {
 			if ok, why := scalarIs(sc[i], m.s[i]); !ok {
 				return o.name + "/persistent-objects/scalar-differs-from-model", fmt.Sprintf("%s: s%d: %s", desc(), i, why)
 			}
+
+			if !bitsAgree(sc[i], m.s[i]) {
+				return o.name + "/persistent-objects/Bits-differs-from-Encode", fmt.Sprintf("%s: s%d", desc(), i)
+			}
 		}
 	}
 
 	return "", ""
+}
+
+// C14persist: Bits must be the expansion of the scalar's current value after ANY history: every history of depth
+// <= 3 over the scalar operations (incl. rejected decodes, which may change the receiver) on persistent scalars,
+// with Bits() compared with the value after every step.
+func C14persist(r *ev.Report) {
+	all := c10Ops()
+
+	var ops []int
+
+	for i, o := range all {
+		if !o.elem {
+			ops = append(ops, i)
+		}
+	}
+
+	var paths [][]int
+
+	for _, a := range ops {
+		for _, b := range ops {
+			paths = append(paths, []int{a, b})
+
+			for _, c := range ops {
+				if all[c].name == "Decode(invalid)" || all[b].name == "Decode(invalid)" || all[a].name == "Decode(invalid)" {
+					paths = append(paths, []int{a, b, c})
+				}
+			}
+		}
+	}
+
+	r.Rule("histories on persistent scalar objects: every sequence of 2 scalar operations (every receiver/argument choice, incl. decodes that are rejected and may clobber the receiver), and every sequence of 3 that contains a rejected decode; after every step Bits() of every scalar must be the binary expansion of the value Encode() reports; non-trivial = all")
+	r.Bound("scalar_operation_instances", len(ops))
+	r.Bound("histories", len(paths))
+	r.States.Add(int64(len(paths)))
+
+	r.ParFor(len(paths), func(_, i int) {
+		r.Transitions.Add(int64(len(paths[i])))
+		r.Evals.Add(1)
+		r.Distinct.Add(1)
+
+		if key, detail := c10PersistRun(paths[i], all); key != "" {
+			r.Violation(key, detail, Case{"op": "persist", "path": fmt.Sprint(paths[i])})
+		}
+	})
+
+	r.Sample(Case{"op": "persist", "path": fmt.Sprint(paths[len(paths)/2])})
 }
 
 // c10Step performs one operation in place on the given objects and returns the successor model.
@@ -199,6 +249,12 @@ func c10Step(el *[c10E]*secp256k1.Element, sc *[c10S]*secp256k1.Scalar, m c10Mod
 			if cerr := r.CSelect(1, r, nil); cerr == nil {
 				err = fmt.Errorf("CSelect with a nil operand reported no error")
 			}
+		case "Decode(invalid)":
+			if derr := r.Decode(c10BadScalar()[o.k]); derr == nil {
+				err = fmt.Errorf("invalid scalar encoding accepted")
+			}
+
+			nm.s[o.i] = ref.OS2IP(r.Encode())
 		default:
 			panic("unknown scalar op " + o.name)
 		}
@@ -270,4 +326,7 @@ func C10persist(r *ev.Report) {
 	r.Sample(Case{"op": "persist", "path": fmt.Sprint(paths[len(paths)-7]), "meaning": "indices into the operation alphabet of C10real"})
 }
 
-func init() { Parts["C10persist"] = Part{"C10", C10persist} }
+func init() {
+	Parts["C10persist"] = Part{"C10", C10persist}
+	Parts["C14persist"] = Part{"C14", C14persist}
+}
